@@ -44,14 +44,24 @@ def _formats(prog: Program, fi, which: Tuple[str, ...]) -> List[Tuple[str, List[
                 t = n.targets[0]
                 names = [unparse(x) for x in t.elts] if isinstance(t, ast.Tuple) else [unparse(t)]
                 targets[id(call)] = [x.replace("self.", "") for x in names]
-    calls = [n for n in walk_no_nested(fi.node) if isinstance(n, ast.Call) and unparse(n.func) in which]
+    def compiled(c: ast.Call):
+        """format of a pre-compiled struct: NAME.pack(...) / NAME.unpack_from(...) with NAME = Struct("fmt") at module level"""
+        f = c.func
+        if isinstance(f, ast.Attribute) and f.attr in which and isinstance(f.value, ast.Name):
+            d = mod.assigns.get(f.value.id)
+            if isinstance(d, ast.Call) and unparse(d.func).split(".")[-1] == "Struct" and d.args:
+                v = prog.try_const(d.args[0], mod, None)
+                return v if isinstance(v, str) else None
+        return None
+    calls = [n for n in walk_no_nested(fi.node) if isinstance(n, ast.Call) and (unparse(n.func) in which or compiled(n) is not None)]
     calls.sort(key=lambda c: (c.lineno, c.col_offset))
     for c in calls:
-        fmt = prog.try_const(c.args[0], mod, fi.cls)
+        pre = compiled(c)
+        fmt = pre if pre is not None else prog.try_const(c.args[0], mod, fi.cls)
         if not isinstance(fmt, str):
             continue
-        if unparse(c.func) == "pack":
-            fields = [unparse(a).replace("self.", "") for a in c.args[1:]]
+        if unparse(c.func).split(".")[-1] == "pack":
+            fields = [unparse(a).replace("self.", "") for a in (c.args if pre is not None else c.args[1:])]
         else:
             fields = targets.get(id(c), [])
         out.append((fmt, fields))
